@@ -87,6 +87,33 @@ def fam_C10(tier, seed):
         else:
             b.con(outer, xs=[o_con(i), at[n3]()])
         ps.append(b.done())
+    # depth 3: seeded random trees over all six connectives (Implies / IfThenElse as inner nodes too), some of them
+    # declared optional; every leaf is a fresh operand constraint or a raw expression
+    def tree(b, a, c, depth, top=False):
+        at = _atoms(b, a, c)
+        if depth == 0:
+            return at[rng.choice(names)]()
+        cls = rng.choice(("Not", "And", "Or", "Xor", "Implies", "IfThenElse"))
+        sub = lambda: tree(b, a, c, depth - 1 if rng.random() < 0.8 else 0)
+        kw = {"optional": True} if (top and rng.random() < 0.25) else {}
+        if cls == "Not":
+            i = b.con("Not", x=sub(), **kw)
+        elif cls == "Xor":
+            i = b.con("Xor", x=sub(), y=sub(), **kw)
+        elif cls in ("And", "Or"):
+            i = b.con(cls, xs=[sub() for _ in range(rng.choice((2, 2, 3)))], **kw)
+        elif cls == "Implies":
+            i = b.con("Implies", cond=cond[rng.choice(sorted(cond))](a, c), xs=[sub() for _ in range(rng.choice((1, 2)))], **kw)
+        else:
+            i = b.con("IfThenElse", cond=cond[rng.choice(sorted(cond))](a, c), xs=[sub()], ys=[sub() for _ in range(rng.choice((1, 2)))], **kw)
+        return i if top else o_con(i)
+    for _ in range(150 if full else 30):
+        b = PB(H, tag="depth-3")
+        a, c = _mk(b)
+        tree(b, a, c, 3, top=True)
+        if rng.random() < 0.3:
+            tree(b, a, c, 2, top=True)
+        ps.append(dict(b.done(), keep=True))
     # ONE constraint used as an operand twice (And / Implies / IfThenElse list first, then again elsewhere): each use
     # sees the operand's own meaning
     for first, again, (n1, n2) in itertools.product(("And", "Implies", "IfThenElse"), ("Not", "Implies", "Or"),
